@@ -7,7 +7,7 @@ DETECT = {
     # id: (check that catches it, signature family seen, note)
     "C03a": ("C03", "stranded:ppr/cc:at=CONCURRENCY_CONTROLLED/q0:after=end-of-role:crash=none", ""),
     "C03b": ("C14", "heartbeat-for-dead-worker:mtr", "not a C03 violation on the repaired tree: fix 4c56e5f prunes the dead child in the same loop iteration, recovery is delayed by one iteration only"),
-    "C04b": (None, None, "not caught: after fix f70b98e only a longer 'REROUTED written, not yet pushed' crash window remains, which is the listed C03 mechanism; its demonstration also fails on the repaired unchanged tree"),
+    "C04b": ("C03", "stranded:{claim,ppr}/cc:at=REROUTED/q0x2:after=write[REROUTED] / at=REROUTED/q0:after=push", "missed until the fifth session: the C03 quick tier had no case in which one reroute_invocations call handles two invocations, and the stranded signature did not say how many invocations one crash caught in the same write-then-push window; added claim/cc and ppr/cc with two blocked same-key invocations on the quick tier and the multiplicity (xK) in the mechanism of the one-at-a-time windows"),
     "C09b": ("C09", "blocking-report:missing / includes-itself-waiting", ""),
     "C13a": ("C13", "occurrence-launched-more-than-once:*:concurrent-loops", ""),
     "C13b": ("C13", "cron:tick-missed", ""),
